@@ -1,6 +1,7 @@
 package main
 
 import (
+	"sort"
 	"fmt"
 	"os"
 	"go/types"
@@ -223,13 +224,37 @@ func (e *Engine) declaredMods(ct *Contract, fn *ssa.Function, sig *types.Signatu
 			panic(r)
 		}
 	}()
+	var excepts []string
 	for _, m := range ct.Modifies {
+		if x, ok := exceptItem(m); ok {
+			for _, me := range fr.resolveMod(x, env, &st) {
+				excepts = append(excepts, me.heap)
+				if s, ok := un.heapSort[me.heap]; ok {
+					e.heapSortHint[me.heap] = s
+				}
+			}
+		}
+	}
+	sort.Strings(excepts)
+	for _, m := range ct.Modifies {
+		if _, ok := exceptItem(m); ok {
+			continue
+		}
 		if strings.TrimSpace(m) == "*" {
-			out["*nonghost"] = true
+			if len(excepts) > 0 {
+				out["*nonghost-except:"+strings.Join(excepts, ",")] = true
+			} else {
+				out["*nonghost"] = true
+			}
 			continue
 		}
 		for _, me := range fr.resolveMod(m, env, &st) {
-			out[me.heap] = true
+			if me.rows && me.ref.S == "" {
+				// only rows / objects allocated by the callee
+				out["new:"+me.heap] = true
+			} else {
+				out[me.heap] = true
+			}
 			if s, ok := un.heapSort[me.heap]; ok {
 				e.heapSortHint[me.heap] = s
 			}
